@@ -30,3 +30,8 @@ package session
 //@ func SessionManager.GetActiveSessions
 //@   loop 1 invariant[C05] len(sessionIDs) == yielded(1)
 //@   ensures[C05 every-live-session-is-listed] len(result) == atlock(len(m.sessions))
+
+// C04 — a session that is in the table is found (expiry is the janitor's business, not the lookup's)
+//@ func SessionManager.GetSession
+//@   ensures[C04 a-session-in-the-table-is-found] atlock(id in m.sessions) ==> ret1 && ret0 == atlock(m.sessions[id])
+//@   ensures[C04 an-unknown-id-is-not-found] !atlock(id in m.sessions) ==> !ret1
